@@ -46,6 +46,17 @@ def run_epochops(ctx, q):
     for o in obs:
         if o["op"] != "reset":
             ctx.count(sha([o["op"], o["args"], o["numbers"], o["closed"]]), o["op"] not in ("has", "hasSameHash"))
+    # a served Epoch object that has been closed cannot answer a query as on an idle server (EpochOps.ServedNotClosed on the
+    # real code), whatever else the trace validation says about the step
+    seen_closed = set()
+    for i, o in enumerate(obs):
+        both = sorted(set(o.get("served", [])) & set(o["closed"]) - {0})
+        if both and (o["op"], tuple(both)) not in seen_closed:
+            seen_closed.add((o["op"], tuple(both)))
+            if len(seen_closed) <= 5:
+                ctx.violation({"op": "epochops", "what": "closed object served"},
+                              f"sequential replay on the real MultiEpoch: after {o['op']}{o['args']} (reply {o['reply']}) the epoch set serves object(s) {both} that have been closed "
+                              f"(epochs {o['numbers']} <- objects {o['served']}, closed {o['closed']})", obs=o)
     for i in rejected:
         o = obs[i]
         nums = o["numbers"]
